@@ -37,4 +37,7 @@ def replay(which):
         seq = [int(x.split(':')[1]) for x in inst if x.startswith(w + ':')]
         if seq != [1, 2, 3, 4, 5]:
             bad.append('subscriber %s, created with spawn_instant and subscribed before its start-up task ran, must receive 1..5 once, in order: %s' % (w, seq))
+    resub = [int(x.split(':')[1]) for x in out.get('resubscribe', '').split(',') if x.startswith('b:')]
+    if resub != [0, 1, 2, 3, 4]:
+        bad.append('a surviving subscriber must keep receiving while others stop and new ones subscribe (0..4): %s' % resub)
     return {'replayed': bool(bad), 'detail': 'native output-port script: %s ; deliveries %s ; late starter %s ; %s' % (bad, got, late, [x for x in log if x.startswith('subs_')]), 'replay': {'which': which}}
